@@ -40,7 +40,7 @@ def isiterable(x):
 def _b(message):
     """convert string to correct format for buffer object"""
     import codecs
-    return codecs.latin_1_encode(message)[0]
+    return codecs.utf_8_encode(message)[0] # (what python reads source files as)
 
 
 if __name__=='__main__':
